@@ -15,9 +15,9 @@ pub const LOOKUPS: usize = 8;
 
 pub fn plan(tier: &str, seed: u64) -> Vec<Batch> {
     let n = match tier {
-        "thorough" => 60,
+        "thorough" => 300,
         "dev" => 1,
-        _ => 6,
+        _ => 30,
     };
     let mut v = Vec::new();
     for i in 0..n {
